@@ -493,7 +493,7 @@ def run(ctx):
 
 def replay(ctx, path):
     import replaylib
-    r = replaylib.load("C14", path)
+    r = replaylib.load(ctx, path)
     if "op" not in r:
         return replaylib.obligations("C14", run, r, path)
     exe = build_c(ctx)
